@@ -22,6 +22,10 @@ var tReal = types.Typ[types.UntypedFloat]
 
 // desugar  a ==> b  into implies(a, b), recursively inside brackets
 func desugar(s string) string {
+	// a <==> b  (lowest precedence)
+	if i := topLevelIndex(s, "<==>"); i >= 0 {
+		return "iff(" + desugar(s[:i]) + ", " + desugar(s[i+4:]) + ")"
+	}
 	// find top-level ==>
 	d := 0
 	for i := 0; i+2 < len(s); i++ {
@@ -49,7 +53,7 @@ func desugar(s string) string {
 			}
 			i = j
 		case '=':
-			if d == 0 && strings.HasPrefix(s[i:], "==>") {
+			if d == 0 && strings.HasPrefix(s[i:], "==>") && (i == 0 || s[i-1] != '<') {
 				return "implies(" + desugar(s[:i]) + ", " + desugar(s[i+3:]) + ")"
 			}
 		}
@@ -93,6 +97,32 @@ func desugar(s string) string {
 		i++
 	}
 	return sb.String()
+}
+
+func topLevelIndex(s, op string) int {
+	d := 0
+	for i := 0; i+len(op) <= len(s); i++ {
+		switch s[i] {
+		case '(', '[', '{':
+			d++
+		case ')', ']', '}':
+			d--
+		case '"':
+			j := i + 1
+			for j < len(s) && s[j] != '"' {
+				if s[j] == '\\' {
+					j++
+				}
+				j++
+			}
+			i = j
+			continue
+		}
+		if d == 0 && strings.HasPrefix(s[i:], op) {
+			return i
+		}
+	}
+	return -1
 }
 
 var exprCache = map[string]ast.Expr{}
@@ -251,7 +281,9 @@ func (fr *Frame) resolveLocal(name string) (ssa.Value, bool) {
 		return nil, false
 	}
 	var points []*ssa.BasicBlock
-	if fr.curLoop != nil {
+	if fr.evalPoint != nil {
+		points = []*ssa.BasicBlock{fr.evalPoint}
+	} else if fr.curLoop != nil {
 		points = []*ssa.BasicBlock{fr.curLoop.header}
 	} else {
 		for _, b := range fr.fn.Blocks {
@@ -303,6 +335,18 @@ func (fr *Frame) resolveLocal(name string) (ssa.Value, bool) {
 			// same block: the later instruction wins; phis come first
 			if _, isPhi := c.(*ssa.Phi); !isPhi {
 				best = c
+			}
+		}
+	}
+	if !haveBest {
+		// no definition dominates every exit: the variable is only meaningful on some paths; use the
+		// deepest executed definition (on other paths its value is simply unconstrained)
+		for _, c := range cands {
+			if _, isC := c.(*ssa.Const); isC {
+				continue
+			}
+			if _, have := fr.vals[c]; have {
+				best, haveBest = c, true
 			}
 		}
 	}
@@ -1217,6 +1261,35 @@ func (ec *evalCtx) evalCall(x *ast.CallExpr) (Value, types.Type) {
 			}
 		}
 		ec.fail("rangeiter(): the loop is not a range loop")
+	case "haskey":
+		// haskey(m, k): map m has an entry for key k
+		v, t := arg(0)
+		k, _ := arg(1)
+		mu, ok := t.Underlying().(*types.Map)
+		if !ok {
+			ec.fail("haskey of non-map")
+		}
+		kt, ok := mapKeyTerm(vc, k, mu.Key())
+		if !ok {
+			ec.fail("map key type not modelled")
+		}
+		has := vc.get(ec.cur, mapFam(t)+".has", "(Array Int (Array Int Bool))")
+		return Value{C: []Term{sAnd(sNot(sEq(v.C[0], "0")), sSel(sSel(has, v.C[0]), kt))}}, tBool
+	case "lastsent":
+		// lastsent(ch): the value most recently sent on channel ch (ghost, maintained by the generator)
+		v, t := arg(0)
+		cht, ok := t.Underlying().(*types.Chan)
+		if !ok {
+			ec.fail("lastsent of non-channel")
+		}
+		et := cht.Elem()
+		cs := comps(et)
+		out := Value{C: make([]Term, len(cs))}
+		for i, c := range cs {
+			a := vc.get(ec.cur, chanLastKey(et)+c.Suffix, "(Array Int "+c.Sort+")")
+			out.C[i] = sSel(a, v.C[0])
+		}
+		return out, et
 	case "isnew":
 		// isnew(x): the object x refers to (pointer, slice, map, chan) was allocated by this activation
 		v, _ := arg(0)
@@ -1494,12 +1567,30 @@ func (fr *Frame) resolveLoc(m string, pkg *types.Package, env map[string]bound, 
 	return vc.locsOfPtr(p, t), nil
 }
 
+// withChanLast: whoever may send on a channel (ghost.chansent[ch] in its frame) may also change
+// the record of the last value sent on it.
+func (vc *VC) withChanLast(locs []locRef) []locRef {
+	out := locs
+	for _, l := range locs {
+		if l.Key != "ghost.chansent" {
+			continue
+		}
+		for k, srt := range vc.famSort {
+			if strings.HasPrefix(k, "ghost.chanlast:") {
+				out = append(out, locRef{Key: k, Sort: srt, Idx: l.Idx})
+			}
+		}
+	}
+	return out
+}
+
 func (fr *Frame) havocLoc(m string, pkg *types.Package, env map[string]bound, st, old *State) error {
 	vc := fr.vc
 	locs, err := fr.resolveLoc(m, pkg, env, old, old)
 	if err != nil {
 		return err
 	}
+	locs = vc.withChanLast(locs)
 	for _, l := range locs {
 		if l.All {
 			vc.havocAll(st)
@@ -1537,7 +1628,7 @@ func (fr *Frame) frameAllowed(c *Contract) (allowed []locRef, all bool, err erro
 		}
 		allowed = append(allowed, locs...)
 	}
-	return allowed, false, nil
+	return fr.vc.withChanLast(allowed), false, nil
 }
 
 // frameGoal: "cell F[idx...] is in the frame or has its entry value", for index terms idx.
@@ -1668,18 +1759,12 @@ func (fr *Frame) frameObligations(c *Contract, exit *State, kind string) error {
 	// "havoc": the function may change any ordinary memory (it calls unknown code), but the
 	// ghost state it changes must still be listed: callers keep ghost state across the call.
 	ghostOnly := c.Flags["havoc"] != ""
-	var allowed []locRef
-	for _, m := range c.Modifies {
-		locs, err := fr.resolveLoc(m, fr.fn.Pkg.Pkg, nil, fr.entry, fr.entry)
-		if err != nil {
-			return fmt.Errorf("%s:%d: modifies %s: %v", c.File, c.Line, m, err)
-		}
-		for _, l := range locs {
-			if l.All {
-				return nil
-			}
-		}
-		allowed = append(allowed, locs...)
+	allowed, all, err := fr.frameAllowed(c)
+	if err != nil {
+		return err
+	}
+	if all {
+		return nil
 	}
 	if exit.epoch != 0 && !ghostOnly {
 		// unknown code ran: the frame cannot be established
